@@ -52,7 +52,8 @@ pub struct PollStats {
 /// returned; a failure that only belongs to other properties ends the case silently.
 pub fn run_observed(prop: &str, timeout_ns: u64, ops: &[Op], epilogue: bool, stats: &mut PollStats) -> Result<(), Fail> {
     let timeout = timeout_opt(timeout_ns);
-    let mut sc = new_scanner(timeout_ns);
+    // with a zero timeout the scanner is created through Default half of the time
+    let mut sc = if timeout_ns == 0 && hash64(&ops) & 1 == 1 { api(PollingParameterNumberMessageScanner::default) } else { new_scanner(timeout_ns) };
     let mut ob = PollObserver::new(timeout);
     let mut now: u64 = 0;
     set_clock(0);
